@@ -595,20 +595,26 @@ impl Engine for ChunkSim {
         let plain = rng.chance(0.6);
         let (def, domain) = catalog::gen_definition(&mut rng, plain);
         // swarm knobs
-        let max_n = match rng.weighted(&[30, 40, 25, 5]) {
+        let max_n = match rng.weighted(&[30, 40, 24, 5, 1]) {
             0 => 3,
             1 => 12,
             2 => 40,
+            3 => 400,
             _ => {
-                if tier == Tier::Thorough && rng.chance(0.02) {
+                // sets long enough to cross whatever internal block size a Context or an
+                // operator might introduce (1024, 4096, ...); 10^5 in the thorough tier
+                if tier == Tier::Thorough && rng.chance(0.1) {
                     100_000
                 } else {
-                    400
+                    *rng.pick(&[1_500usize, 5_000, 9_000])
                 }
             }
         };
         let n = if rng.chance(0.03) {
             0
+        } else if max_n >= 1_000 && rng.chance(0.4) {
+            // exactly at, one below and one above typical block sizes
+            (*rng.pick(&[1024usize, 2048, 4096, 8192, 1000, 5000]) as i64 + rng.range(-1, 1)) as usize
         } else {
             1 + rng.below(max_n)
         };
